@@ -29,8 +29,12 @@ def launch_rules(ctx, fam):
     f = m.method(S, '_handle_event')
     construct = S + '._handle_event'
     w = where(f)
-    if f.params[1:] != ['eio_sid', 'namespace', 'id', 'data']:
+    # called positionally from the dispatch table (C05.R1 checks that
+    # binding): parameters are identified by position
+    if len(f.params[1:]) != 4:
         raise AnalysisError(construct + ' signature changed')
+    eio_p, ns_p, id_p, data_p = f.params[1:]
+    nsx = "%s or '/'" % ns_p
     internal = m.method(S, '_handle_event_internal')
     run = run_function(f, m)
     n_gated = n_ungated = 0
@@ -68,9 +72,8 @@ def launch_rules(ctx, fam):
         n_gated += 1
         c, g = gate
         ga = [U(x) for x in g.args]
-        sid_src = 'self.manager.sid_from_eio_sid(eio_sid, %s)' % \
-            "namespace or '/'"
-        ctx.check(ga == [sid_src, "namespace or '/'"], construct,
+        sid_src = 'self.manager.sid_from_eio_sid(%s, %s)' % (eio_p, nsx)
+        ctx.check(ga == [sid_src, nsx], construct,
                   'the gate tests (sid of this transport on the packet '
                   'namespace, that namespace)', key='gate-args',
                   reason='the connected-test is is_connected(%s)'
@@ -85,8 +88,8 @@ def launch_rules(ctx, fam):
                       rid='C05.R2')
             got = {k: U(run.expand(v)) for k, v in b.args.items()}
             ip = internal.params[1:]
-            want = dict(zip(ip, ['self', sid_src, 'eio_sid', 'data',
-                                 "namespace or '/'", 'id'])) \
+            want = dict(zip(ip, ['self', sid_src, eio_p, data_p, nsx,
+                                 id_p])) \
                 if len(ip) == 6 else {}
             ctx.check(got == want and not b.errors, construct,
                       '%s launch binds (server, sid, eio_sid, data, '
